@@ -1,4 +1,4 @@
-use c18::tree::{Carry, Case, Form, Header, Item, Node, PushVia, RunHow};
+use c18::tree::{Carry, Case, CtxtVia, Form, Header, Item, Node, PushVia, RunHow, Via, Wrap};
 use vcore::proptest::prelude::*;
 use vcore::Level;
 
@@ -74,7 +74,7 @@ fn body(depth_left: u32) -> BoxedStrategy<Vec<Item>> {
         9 => (form(), inner.clone()).prop_map(|(form, items)| Item::Span(Node { form, items })),
         3 => (header(), prop_oneof![Just(PushVia::Method), Just(PushVia::Function), Just(PushVia::Text)], inner.clone()).prop_map(|(header, via, items)| Item::Push { header, via, items }),
         3 => inner.clone().prop_map(|items| Item::Catch { items }),
-        1 => any::<bool>().prop_map(|props| Item::CaptureFrame { props }),
+        1 => (any::<bool>(), prop::bool::weighted(0.25)).prop_map(|(props, root)| Item::CaptureFrame { props, root }),
         4 => (prop_oneof![3 => Just(RunHow::Call), 3 => Just(RunHow::EnterGuard), 3 => Just(RunHow::InFuture), 1 => Just(RunHow::OtherThread)], inner.clone()).prop_map(|(how, items)| Item::RunFrame { how, items }),
         1 => inner.clone().prop_map(|items| Item::Service { items }),
         1 => (prop_oneof![1 => Just(Carry::Nothing), 2 => Just(Carry::FrameCurrent), 2 => Just(Carry::TraceparentPush), 1 => Just(Carry::Both)], any::<bool>(), inner.clone())
@@ -139,8 +139,36 @@ fn panic_prologue() -> impl Strategy<Value = Option<Item>> {
     prop_oneof![2 => Just(None), 1 => scope.prop_map(|s| Some(Item::Catch { items: vec![s] }))]
 }
 
+fn wraps(max: usize) -> impl Strategy<Value = Vec<Wrap>> {
+    prop::collection::vec(
+        prop_oneof![1 => Just(Wrap::Boxed), 3 => Just(Wrap::Shared), 3 => Just(Wrap::Optional), 1 => Just(Wrap::AssertInternal), 1 => Just(Wrap::SharedDyn)],
+        0..=max,
+    )
+}
+
+/// How the trace-context ctxt reaches the runtime: as itself, behind one of the carriers `emit_core`
+/// implements `Ctxt` for, or (erased) behind a nest of them; optionally with the ctxt inside wrapped too.
+fn ctxt_via() -> impl Strategy<Value = CtxtVia> {
+    let plain = |via: Via| Just(CtxtVia { via, nest: Vec::new(), inner: None });
+    prop_oneof![
+        3 => plain(Via::Concrete),
+        1 => plain(Via::Ref),
+        2 => plain(Via::Boxed),
+        2 => plain(Via::Shared),
+        2 => plain(Via::Optional),
+        1 => plain(Via::AssertInternal),
+        6 => (
+            prop_oneof![3 => Just(Via::BoxDyn), 1 => Just(Via::ArcDyn), 2 => Just(Via::Ambient)],
+            wraps(3),
+            prop_oneof![3 => Just(None), 1 => wraps(2).prop_map(Some)],
+        )
+            .prop_map(|(via, nest, inner)| CtxtVia { via, nest, inner }),
+    ]
+}
+
 fn case() -> impl Strategy<Value = Case> {
     (
+        ctxt_via(),
         prop::collection::vec(any::<bool>(), 0..8),
         any::<bool>(),
         // (no sampler installed?, sampled-trace filter): the plain `setup()` configuration is a third of the cases
@@ -152,22 +180,22 @@ fn case() -> impl Strategy<Value = Case> {
             1 => prop_oneof![Just((true, Some(true))), Just((true, Some(false)))],
         ],
         any::<u64>(),
-        (prop::collection::vec(any::<bool>(), 0..4), panic_prologue(), body(7)).prop_map(|(captures, prologue, mut items)| {
+        (prop::collection::vec((any::<bool>(), prop::bool::weighted(0.25)), 0..4), panic_prologue(), body(7)).prop_map(|(captures, prologue, mut items)| {
             if let Some(p) = prologue {
                 items.insert(0, p);
             }
             // what a dispatcher captures when jobs are submitted: frames made before any trace exists
-            for props in captures {
-                items.insert(0, Item::CaptureFrame { props });
+            for (props, root) in captures {
+                items.insert(0, Item::CaptureFrame { props, root });
             }
             items
         }),
     )
-        .prop_map(|(sampler, sampler_default, (no_sampler, in_sampled), rng, mut items)| {
+        .prop_map(|(ctxt, sampler, sampler_default, (no_sampler, in_sampled), rng, mut items)| {
             let mut budget = 20;
             limit(&mut items, &mut budget, 0, false);
             let (sampler, sampler_default) = if no_sampler { (Vec::new(), true) } else { (sampler, sampler_default) };
-            Case { no_sampler, sampler, sampler_default, in_sampled, rng, items }
+            Case { ctxt, no_sampler, sampler, sampler_default, in_sampled, rng, items }
         })
 }
 
